@@ -71,6 +71,8 @@ def generate(prop, rng):
         "explicit_dirs": True,
         "jobs": rng.choice([1, 2, None]),
         "links_arg": rng.random() < 0.6,  # else apply() takes them from odb.cache_types
+        "relink": rng.random() < 0.25,  # compare(relink=True): unchanged files are re-created too
+        "own_storage": rng.random() < 0.25,  # one explicit target file lives in a second cache, registered at its own key
     }
     evict = []
     if rng.random() < 0.25:
@@ -113,7 +115,8 @@ def shrink_paths(sc):
 def simplify(sc):
     import copy
 
-    simple = {"links": ["copy"], "reflink": "enotsup", "with_state": False, "jobs": 1, "tick_ns": 1_000_000}
+    simple = {"links": ["copy"], "reflink": "enotsup", "with_state": False, "jobs": 1, "tick_ns": 1_000_000,
+              "relink": False, "own_storage": False, "links_arg": True}
     for k, v in simple.items():
         if sc["cfg"].get(k) != v:
             c = copy.deepcopy(sc)
@@ -198,11 +201,29 @@ def execute(sc, ctx):
     idx, doid, dbytes = _target_index(sc, w, odb, contents, foid)
     if doid is not None:
         w.raw_add("cache", "local", doid, dbytes)
+    own_rel = None
+    if cfg.get("own_storage"):
+        from dvc_data.index import ObjectStorage
+
+        lz = sc.get("lazy")
+        cand = sorted(r for r in target if not (lz is not None and (lz == "" or r.startswith(lz + "/"))))
+        # the file's content must not be needed from the main cache by anybody else
+        cand = [r for r in cand if sum(1 for r2, v2 in target.items() if foid[v2[0]] == foid[target[r][0]]) == 1]
+        if cand:
+            own_rel = cand[len(cand) // 2]
+            odb2 = w.odb("cache2", "local", tmp_dir=w.p("tmp"), type=list(cfg["links"]))
+            ci = target[own_rel][0]
+            w.raw_add("cache2", "local", foid[ci], contents[ci])
+            w.raw_rm("cache", "local", foid[ci])
+            idx.storage_map.add_cache(ObjectStorage(tuple(own_rel.split("/")), odb2))
+            ctx.probe("file_with_own_storage")
     unavailable = set()
     for rel in sc.get("evict", []):
         ci = target[rel][0]
         w.raw_rm("cache", "local", foid[ci])
         unavailable.update(r for r, (c2, _) in target.items() if c2 == ci or foid[c2] == foid[ci])
+    if own_rel is not None:
+        unavailable.discard(own_rel)
     lazy = sc.get("lazy")
     if sc.get("evict_dir") and doid is not None:
         w.raw_rm("cache", "local", doid)
@@ -217,7 +238,7 @@ def execute(sc, ctx):
     idx.onerror = lambda entry, exc: errors.append(("load", entry.key if entry else None, repr(exc)))
     old = md5(ibuild(ws, w.localfs), state=state)
     try:
-        diff = compare(old, idx, delete=cfg["delete"])
+        diff = compare(old, idx, delete=cfg["delete"], relink=bool(cfg.get("relink")))
         apply(diff, ws, w.localfs, onerror=onerror, state=state,
               links=list(cfg["links"]) if cfg.get("links_arg", True) else None, jobs=cfg["jobs"], update_meta=False)
     except Exception as exc:  # noqa: BLE001
@@ -270,6 +291,8 @@ def execute(sc, ctx):
             ctx.violate("target-dir-missing", "any", f"{sorted(tdirs - sdirs)}")
         # second compare: nothing left to do
         idx2, _, _ = _target_index(sc, w, odb, contents, foid)
+        if own_rel is not None:
+            idx2.storage_map.add_cache(ObjectStorage(tuple(own_rel.split("/")), odb2))
         try:
             old2 = md5(ibuild(ws, w.localfs), state=state)
             d2 = compare(old2, idx2, delete=True)
